@@ -738,3 +738,28 @@ def router_send(c):
     c.call((facade, 'sendPacket'), p)
     c.ensure('one-write-of-the-same-object', "raised is None and calls() == ('transport.writePacket',) and "
              "is_same(sent('transport.writePacket')[0][1][0], p) and len(sent('transport.writePacket')[0][1]) == 1")
+
+
+@contract('C18', 'router.dispatch.burst', ROUTER,
+          clause='received packets are queued per function in arrival order, however many of them are waiting: a burst that nobody reads yet '
+                 'neither blocks the router nor delays or drops packets of other functions',
+          bounded='burst of 100 unread packets of one function followed by one packet of another function', unroll=300)
+def dispatch_burst(c):
+    n = 100
+    pks = [c.ext('pk%d' % i, attrs={'function': c.ext('fn%d' % i, attrs={'value': 5})}) for i in range(n)]
+    other = c.ext('pk_other', attrs={'function': c.ext('fn_other', attrs={'value': 7})})
+    rcv = [c.ext('rcv5', attrs={'value': 5}), c.ext('rcv7', attrs={'value': 7})]
+    router = c.new(CPX + ':CPXRouter', c.ext('transport', returns={'readPacket': scripted(c, pks + [other])}))
+    for j in (0, 1):
+        c.call((router, 'receivePacket'), rcv[j], timeout=0)
+        c.ensure('nothing-before-arrival-%d' % j, "raised == 'queue.Empty'")
+    c.reset_trace()
+    c.call((router, 'run'))
+    c.ensure('router-never-blocks', "raised == 'StopLoop' and len(calls()) == %d" % (n + 2))
+    c.call((router, 'receivePacket'), rcv[1], timeout=0)
+    c.let('other', other)
+    c.ensure('other-function-not-delayed', 'raised is None and is_same(result, other)')
+    got = drain(c, router, rcv[0], n, 'b')
+    c.let('got', got)
+    c.let('pks', tuple(pks))
+    c.ensure('whole-burst-in-arrival-order', 'got == %d and all(is_same(x, y) for x, y in zip((%s), pks))' % (n, ', '.join('b%d' % i for i in range(n))))
